@@ -70,6 +70,7 @@ pub fn lookup(scen: &str) -> Option<Scenario> {
         "c07split" => scen_rd::run_c07_split,
         "c06" => scen_rd::run_c06,
         "c14" => scen_c14::run,
+        "c14big" => scen_c14::run_big,
         _ => return None,
     })
 }
